@@ -117,8 +117,19 @@ package kapacitor
 //@       result0[i] != nil && result0[i].stopTL != nil && result0[i].startTL != nil
 //@       && result0[i].stopTL.Val == tickN(n.ticker, start, i) - time.Time(n.b.Offset)
 //@       && result0[i].startTL.Val == result0[i].stopTL.Val - time.Time(n.b.Period)
+// ... only ticks inside the span (up to now when no stop is given), none of whose range ends in the
+// future, and the list stops only when the next tick is zero, outside the span or in the future.
+//@   ensures result1 == nil ==> forall i int :: 0 <= i && i < len(result0) ==>
+//@       tickN(n.ticker, start, i) != time.Time(0) && tickN(n.ticker, start, i) <= ite(stop == time.Time(0), callresult(Now), stop)
+//@       && result0[i].stopTL.Val <= callresult(Now)
+//@   ensures result1 == nil ==> tickN(n.ticker, start, len(result0)) == time.Time(0)
+//@       || tickN(n.ticker, start, len(result0)) > ite(stop == time.Time(0), callresult(Now), stop)
+//@       || tickN(n.ticker, start, len(result0)) - time.Time(n.b.Offset) > callresult(Now)
 //@   loop 1
 //@     modifies elems(queries)
+//@     invariant stop == ite(before(stop) == time.Time(0), callresult(Now), before(stop)) && now == callresult(Now)
+//@     invariant forall i int :: 0 <= i && i < len(queries) ==>
+//@       tickN(n.ticker, start, i) != time.Time(0) && tickN(n.ticker, start, i) <= stop && queries[i].stopTL.Val <= now
 //@     invariant samearray(queries, before(queries)) || newinloop(queries)
 //@     invariant len(queries) == 0 ==> current == start
 //@     invariant len(queries) > 0 ==> current == tickN(n.ticker, start, len(queries)-1)
